@@ -55,6 +55,10 @@ pub enum Base {
     /// servers: a gated SUBSCRIBE handler that never completes with two PINGREQs queued behind it in the control
     /// pipeline (the handler must be cancelled and the queue given up, or tear-down waits for ever)
     HandlersQueued,
+    /// the application's publish service (clients: protocol service) is not ready - its own back-pressure - with one
+    /// gated publish handler in flight and a second publish arrived but unread: the dispatcher sits in its reading
+    /// pause when the connection ends
+    Held,
 }
 
 #[derive(Clone, Debug)]
@@ -89,6 +93,8 @@ enum BaseStep {
     SendRaw(Vec<u8>),
     StartSender(usize, SK),
     Window(bool),
+    /// the publish service stops being ready
+    Hold,
     /// the application hands the next chunk of sender j's streamed publish to the sink
     Chunk(usize),
 }
@@ -119,6 +125,7 @@ fn script_for(cfg: &TdCfg) -> Vec<BaseStep> {
             BaseStep::StartSender(2, SK::Q0),
             BaseStep::StartSender(3, SK::Q0),
         ],
+        Base::Held => vec![BaseStep::Send(rf::publish(1, 1, "t", &[0xC1])), BaseStep::Hold, BaseStep::Send(rf::publish(1, 2, "t", &[0xC2])), BaseStep::Send(rf::publish(0, 0, "t", &[0xC3]))],
         Base::Sends => vec![BaseStep::StartSender(0, SK::Q1), BaseStep::StartSender(1, SK::Q1), BaseStep::StartSender(2, SK::Ready)],
         Base::HandlersQueued => vec![BaseStep::Send(Pkt::Subscribe { pid: 3, props: vec![], filters: vec![("f/1".into(), 0)] }), BaseStep::Send(Pkt::PingReq), BaseStep::Send(Pkt::PingReq)],
         Base::HandlerSends => vec![BaseStep::Send(Pkt::Subscribe { pid: 3, props: vec![], filters: vec![("f/1".into(), 0)] }), BaseStep::Send(Pkt::PingReq), BaseStep::Send(Pkt::PingReq)],
@@ -208,6 +215,7 @@ impl Scenario for Td {
                     BaseStep::Send(p) => self.conn.send(&p),
                     BaseStep::SendRaw(b) => self.conn.send_raw(&b),
                     BaseStep::Window(open) => self.conn.window(open),
+                    BaseStep::Hold => crate::world::hold_readiness(true),
                     BaseStep::Chunk(j) => {
                         let w = {
                             let mut a = self.app.borrow_mut();
@@ -321,6 +329,13 @@ impl Scenario for Td {
             self.conn.window(true);
             return true;
         }
+        // a peer that went away while nothing was being read is noticed when reading resumes: the application's
+        // back-pressure ends (local causes - close, force-close, handler error, write error - must not need that)
+        if self.cfg.base == Base::Held && matches!(self.cfg.cause, Cause::PeerClose | Cause::ReadErr) && !self.window_reopened {
+            self.window_reopened = true;
+            crate::world::hold_readiness(false);
+            return true;
+        }
         // let time pass (keep-alive expiry, disconnect timeout) until the connection task has completed
         if !self.conn.done() && self.ticks < 60 {
             self.ticks += 1;
@@ -418,7 +433,7 @@ pub fn configs(tier: Tier) -> Vec<TdCfg> {
     let mut v = Vec::new();
     let causes = [Cause::PeerClose, Cause::ReadErr, Cause::WriteErr, Cause::Garbage, Cause::ProtoViolation, Cause::HandlerErr, Cause::ProtoErr, Cause::KeepAlive, Cause::Close, Cause::ForceClose, Cause::ReadyErr];
     for (ver, role) in crate::c05::roles() {
-        for base in [Base::Handlers, Base::Streaming, Base::StreamingDetached, Base::Sends, Base::SendsCb, Base::Bytes, Base::Backpressure, Base::OutStream, Base::HandlerSends, Base::HandlersQueued] {
+        for base in [Base::Handlers, Base::Streaming, Base::StreamingDetached, Base::Sends, Base::SendsCb, Base::Bytes, Base::Backpressure, Base::OutStream, Base::HandlerSends, Base::HandlersQueued, Base::Held] {
             for cause in causes {
                 if base == Base::Bytes && !matches!(cause, Cause::PeerClose | Cause::ReadErr | Cause::ForceClose | Cause::Garbage) {
                     continue;
@@ -430,7 +445,7 @@ pub fn configs(tier: Tier) -> Vec<TdCfg> {
                 if cause == Cause::ProtoErr && (role == Role::Client || !matches!(base, Base::Handlers | Base::HandlersQueued)) {
                     continue;
                 }
-                if cause == Cause::HandlerErr && !matches!(base, Base::Handlers | Base::Backpressure) {
+                if cause == Cause::HandlerErr && !matches!(base, Base::Handlers | Base::Backpressure | Base::Held) {
                     continue;
                 }
                 // bytes written in the middle of a half-received payload are payload, not a new (bad) packet
@@ -439,10 +454,15 @@ pub fn configs(tier: Tier) -> Vec<TdCfg> {
                 }
                 // readiness of the application's publish service: servers (the service is passed to MqttServer::publish),
                 // inbound bases (seeded change C07_r4 lost the payload sender on exactly this path)
-                if cause == Cause::ReadyErr && !matches!(base, Base::Handlers | Base::Streaming | Base::StreamingDetached | Base::Backpressure) {
+                if cause == Cause::ReadyErr && !matches!(base, Base::Handlers | Base::Streaming | Base::StreamingDetached | Base::Backpressure | Base::Held) {
                     continue;
                 }
                 if base == Base::HandlerSends && (role == Role::Client || matches!(cause, Cause::HandlerErr | Cause::ProtoErr | Cause::ReadyErr)) {
+                    continue;
+                }
+                // what arrives during the reading pause stays unread and the timers are stopped: undecodable bytes,
+                // a violating packet and keep-alive expiry do not end the connection while it lasts
+                if base == Base::Held && matches!(cause, Cause::Garbage | Cause::ProtoViolation | Cause::KeepAlive | Cause::ProtoErr) {
                     continue;
                 }
                 if base == Base::HandlersQueued && (role == Role::Client || matches!(cause, Cause::HandlerErr | Cause::ReadyErr)) {
@@ -450,7 +470,7 @@ pub fn configs(tier: Tier) -> Vec<TdCfg> {
                 }
                 let mut ep = EpCfg::new(ver, role);
                 ep.proto_sends = base == Base::HandlerSends;
-                ep.ready_gate = cause == Cause::ReadyErr;
+                ep.ready_gate = cause == Cause::ReadyErr || base == Base::Held;
                 ep.handler_auto = false;
                 // (HandlerSends: the handler answers by itself once its send has resolved)
                 ep.proto_auto = base == Base::HandlerSends;
